@@ -738,17 +738,17 @@ impl MDBShardFileFooter {
 pub assume_specification<T>[std::mem::drop::<T>](x: T);
 //@ extract mdb_shard/src/shard_in_memory.rs struct MDBInMemoryShard
 //@ end
-// the in-memory accounting of the three byte totals (iterator folds over the two maps; their definitions are not unfolded here)
-uninterp spec fn spec_stored_bytes_on_disk(m: MDBInMemoryShard) -> u64;
-uninterp spec fn spec_materialized_bytes(m: MDBInMemoryShard) -> u64;
-uninterp spec fn spec_stored_bytes(m: MDBInMemoryShard) -> u64;
+// the in-memory accounting of the three byte totals: DEFINED in prelude/imsbytes_totals.rs (spec_* = the mathematical sums over all file
+// records' segments / all xorb records, as u64; `totals_fit` = each sum < 2^64).  The three getters below are stubs whose contracts are
+// PROVED on the extracted bodies (iterator folds over the two maps) in unit U-IMSBYTES, under the same domain preconditions.
+//@ include prelude/imsbytes_totals.rs
 impl MDBInMemoryShard {
     #[verifier::external_body]
-    fn stored_bytes_on_disk(&self) -> (r: u64) ensures r == spec_stored_bytes_on_disk(*self) { unimplemented!() }
+    fn stored_bytes_on_disk(&self) -> (r: u64) requires math_stored_bytes_on_disk(*self) <= u64::MAX, ensures r == spec_stored_bytes_on_disk(*self) { unimplemented!() }
     #[verifier::external_body]
-    fn materialized_bytes(&self) -> (r: u64) ensures r == spec_materialized_bytes(*self) { unimplemented!() }
+    fn materialized_bytes(&self) -> (r: u64) requires math_materialized_bytes(*self) <= u64::MAX, ensures r == spec_materialized_bytes(*self) { unimplemented!() }
     #[verifier::external_body]
-    fn stored_bytes(&self) -> (r: u64) ensures r == spec_stored_bytes(*self) { unimplemented!() }
+    fn stored_bytes(&self) -> (r: u64) requires math_stored_bytes(*self) <= u64::MAX, ensures r == spec_stored_bytes(*self) { unimplemented!() }
 }
 spec fn header_default() -> MDBShardFileHeader {
     MDBShardFileHeader { tag: MDB_SHARD_HEADER_TAG, version: MDB_SHARD_HEADER_VERSION, footer_size: MDB_SHARD_FOOTER_SIZE as u64 }
@@ -922,6 +922,19 @@ proof fn lemma_shard_done(sf: Seq<(MerkleHash, MDBFileInfo)>, sc: Seq<(MerkleHas
     lemma_file_pos_shift(0, fsec, nf);
 }
 
+// what the footer getters (unit U-IMSBYTES) read: `footer_written` lists the count / offset / size / total conjuncts of shard_post, with
+// fsz / csz = byte size of the file / xorb section including the bookend, nh = number of chunk-lookup entries.  The antecedent of
+// every footer-getter clause in U-IMSBYTES is therefore a consequence of serialize_from's postcondition.
+//@ include prelude/imsbytes_footer.rs
+proof fn lemma_shard_post_footer_written(sf: Seq<(MerkleHash, MDBFileInfo)>, sc: Seq<(MerkleHash, Arc<MDBCASInfo>)>, mdb: MDBInMemoryShard, sh: MDBShardInfo, data: Seq<u8>,
+        fk: Seq<u64>, fv: Seq<u32>, ck: Seq<u64>, cv: Seq<u32>, hk: Seq<u64>, hv: Seq<(u32, u32)>)
+    requires is_entries(sf, mdb.file_content@), is_entries(sc, mdb.cas_content@), shard_post(sf, sc, mdb, sh, data, fk, fv, ck, cv, hk, hv),
+    ensures /*@C09*/ footer_written(mdb, sh, data.len() as int, file_pos(0, file_hdrs(sf), sf.len() as int) + 48, cas_pos(0, cas_hdrs(sc), sc.len() as int) + 48, hk.len() as int),
+{
+    let fsec = file_hdrs(sf); let csec = cas_hdrs(sc); let nf = sf.len() as int; let nc = sc.len() as int;
+    lemma_file_pos_shift(48, fsec, nf); lemma_cas_pos_shift(sh.metadata.cas_info_offset as int, csec, nc);
+    lemma_file_pos_mono(0, fsec, 0, nf); lemma_cas_pos_mono(0, csec, 0, nc);
+}
 // the bytes are a serialization of the in-memory shard: for the key orders of its two maps, everything in shard_post holds
 spec fn shard_written(mdb: MDBInMemoryShard, sh: MDBShardInfo, data: Seq<u8>) -> bool {
     exists|sf: Seq<(MerkleHash, MDBFileInfo)>, sc: Seq<(MerkleHash, Arc<MDBCASInfo>)>,
@@ -947,6 +960,7 @@ impl MDBShardInfo {
 //@ contract
         requires
             old(writer).len() == 0,     // the footer offsets are absolute: the shard starts at the writer's position 0
+            /*@AUX*/ totals_fit(*mdb),   // domain of the three byte totals (each < 2^64; U-IMSBYTES proves the getters under it)
             files_ok(mdb.file_content@), cas_ok(mdb.cas_content@),
             forall|s: Seq<(MerkleHash, MDBFileInfo)>| #[trigger] is_entries(s, mdb.file_content@) ==> file_pos(0, file_hdrs(s), s.len() as int) + 48 <= 48 * 0xFFFF_FFFF,
             forall|s: Seq<(MerkleHash, Arc<MDBCASInfo>)>| #[trigger] is_entries(s, mdb.cas_content@) ==> cas_pos(0, cas_hdrs(s), s.len() as int) + 48 <= 48 * 0xFFFF_FFFF,
